@@ -5,8 +5,8 @@ import (
 	"fmt"
 	"math"
 	"math/big"
-	"strconv"
 	"sort"
+	"strconv"
 	"strings"
 )
 
